@@ -15,7 +15,8 @@ CONSTANTS
   MAXOPS = 26
   MAXRESTART = 2
   UPDENDS = {3, 4, 5, 7, 8}
-  MAXUPD = 1
+  MAXUPD = 2
+  ADDS <- g_ADDS
   SECONDBAD = TRUE
   FAILBUDGET = 3
 INVARIANTS EmitAtDepth
